@@ -222,7 +222,17 @@ pub fn issue(req: &IssueReq, key: &KeyForEncoding) -> Out<Vec<String>> {
                 let _ = issuer.encode(key);
             }
         }
-        let set_paths = |issuer: &mut Issuer| { for p in &req.paths[..late] { issuer.disclosable(p); } };
+        // the markings go in through `disclosable` one by one, through `iter_disclosable` in one call, or the first
+        // half one by one and the rest in one call: the two methods add to the same list
+        let how = (sched / 27) % 3;
+        let set_paths = |issuer: &mut Issuer| {
+            let ps = &req.paths[..late];
+            match how {
+                1 => { issuer.iter_disclosable(ps.to_vec().iter()); }
+                2 => { let k = ps.len() / 2; for p in &ps[..k] { issuer.disclosable(p); } issuer.iter_disclosable(ps[k..].to_vec().iter()); }
+                _ => { for p in ps { issuer.disclosable(p); } }
+            }
+        };
         let set_decoy = |issuer: &mut Issuer| { if let Some(n) = req.decoy { issuer.decoy(n); } };
         let set_header = |issuer: &mut Issuer| { if let Some(h) = &req.header { issuer.header(h.clone()); } };
         let set_exp = |issuer: &mut Issuer| { if let Some(n) = req.exp_in { issuer.expires_in_seconds(n); } };
